@@ -350,7 +350,7 @@ func genC10(g *rand.Rand, tier string) any {
 		id++
 		// client: open, maybe send, then receive until the end; never half-closes
 		// unless the handler needs it
-		scen := g.IntN(4)
+		scen := g.IntN(5)
 		if scen == 3 && p.Links[1].Cap != -1 {
 			// With a bounded server-to-client link and callers that do not read, the
 			// trailer of the returned handler waits behind the stuck writer, the
@@ -360,6 +360,10 @@ func genC10(g *rand.Rand, tier string) any {
 			scen = g.IntN(3)
 		}
 		switch scen {
+		case 4: // handler returns at once and its caller only listens: on a link that does not
+			// drain, its final status waits behind whatever the connection's writer is stuck on
+			c.CProg = []Op{{K: 'f', A: nil, B: []Op{{K: 'R'}}}}
+			c.HProg = nil
 		case 3: // handler returns at once while the caller keeps sending: late bodies are answered by server resets
 			if c.Kind == KSStream {
 				c.Kind = KBidi
